@@ -91,7 +91,9 @@ Step(st, e, shares) ==
            n == CtorN(st, e)
            grow == f.cols # <<>> /\ NRowH(st, e.x) # n
            pos(c) == CHOOSE i \in DOMAIN f.cols : f.cols[i] = c
-           bufs1 == IF grow THEN st.bufs \o [i \in DOMAIN f.cols |-> Bcast(st.bufs[f.buf[f.cols[i]]], n)] ELSE st.bufs
+           \* (a column of the keyword's name is replaced below: what is put here for it does not matter)
+           bufs1 == IF grow THEN st.bufs \o [i \in DOMAIN f.cols |-> IF f.cols[i] = e.name THEN <<>> ELSE Bcast(st.bufs[f.buf[f.cols[i]]], n)]
+                    ELSE st.bufs
            fr1 == [cols |-> f.cols, grp |-> <<>>,
                    buf |-> [c \in Range(f.cols) |-> IF grow THEN Len(st.bufs) + pos(c) ELSE f.buf[c]]]
            s1 == [bufs |-> Append(bufs1, Bcast(e.col, n)), frames |-> Append(st.frames, fr1)] IN
